@@ -92,9 +92,23 @@ func WorkerMain(sc Scenario, tier string, seed uint64, from, stride, total int) 
 		out.Write(b)
 		out.WriteByte('\n')
 		out.Flush()
+		if ExitAfterThisPlan {
+			// this process holds goroutines that cannot be recovered: a fresh one continues
+			if i+stride < total {
+				fmt.Fprintf(out, "PAUSE %d\n", i+stride)
+			} else {
+				fmt.Fprintf(out, "END\n")
+			}
+			out.Flush()
+			os.Exit(0)
+		}
 	}
 	fmt.Fprintf(out, "END\n")
 }
+
+// ExitAfterThisPlan is set by a scenario whose execution left the process in a state that
+// must not run another plan.
+var ExitAfterThisPlan bool
 
 // ExecMain reads one plan from stdin (or a file), executes it and prints the result.
 func ExecMain(path string) int {
@@ -128,6 +142,9 @@ func ExecMain(path string) int {
 	b, _ := json.Marshal(res)
 	os.Stdout.Write(b)
 	os.Stdout.Write([]byte{'\n'})
+	if ExitAfterThisPlan {
+		os.Exit(0)
+	}
 	return 0
 }
 
@@ -353,6 +370,10 @@ func (d *Driver) Check(id, tier string) int {
 		return 2
 	}
 	defer d.Cleanup()
+	rid := id // property id violations are reported under
+	if desc.ReportAs != "" {
+		rid = desc.ReportAs
+	}
 	seed := SeedFromEnv()
 	start := time.Now()
 	total := sc.Runs(tier)
@@ -500,7 +521,7 @@ func (d *Driver) Check(id, tier string) int {
 				detail = v.Detail
 			}
 		}
-		if kf := known.Match(id, sig); kf != nil {
+		if kf := known.Match(rid, sig); kf != nil {
 			knownHits[kf] = append(knownHits[kf], fmt.Sprintf("%s (%d runs)", sig, agg.violCount[sig]))
 			continue
 		}
@@ -510,7 +531,7 @@ func (d *Driver) Check(id, tier string) int {
 			reported = append(reported, sig)
 			continue
 		}
-		rf := &ReplayFile{Property: id, Signature: sig, Detail: detail, Seed: seed, Tier: tier, Plan: r.Plan, OrigSteps: len(r.Plan.Steps)}
+		rf := &ReplayFile{Property: rid, Signature: sig, Detail: detail, Seed: seed, Tier: tier, Plan: r.Plan, OrigSteps: len(r.Plan.Steps)}
 		if minimised < 3 {
 			minimised++
 			mp, n := d.Minimise(sc, r.Plan, sig, 120, 3*time.Minute)
@@ -520,7 +541,7 @@ func (d *Driver) Check(id, tier string) int {
 		os.MkdirAll(filepath.Dir(path), 0o755)
 		b, _ := json.MarshalIndent(rf, "", " ")
 		os.WriteFile(path, b, 0o644)
-		fmt.Printf("VIOLATION property=%s replay=%s\n", id, path)
+		fmt.Printf("VIOLATION property=%s replay=%s\n", rid, path)
 		fmt.Printf("  signature: %s\n  detail: %s\n  (seen in %d runs; plan %d steps -> %d)\n", sig, detail, agg.violCount[sig], rf.OrigSteps, len(rf.Plan.Steps))
 		reported = append(reported, sig)
 		exit = 1
@@ -528,7 +549,7 @@ func (d *Driver) Check(id, tier string) int {
 	for i := range known.Findings {
 		kf := &known.Findings[i]
 		if hits := knownHits[kf]; len(hits) > 0 {
-			fmt.Printf("KNOWN-FINDING: property=%s %s\n", id, kf.What)
+			fmt.Printf("KNOWN-FINDING: property=%s %s\n", rid, kf.What)
 			for _, h := range hits {
 				fmt.Printf("  seen as: %s\n", h)
 			}
